@@ -173,6 +173,7 @@ class ReaderModel:
                                 self.gates[lvl] = (req, opt)
         # nanstr acceptance per key path
         self.accepts_nanstr = set()
+        self.partial_nanstr = {}
         for n in walk_local_stmt(f.node):
             if isinstance(n, ast.Compare) and len(n.ops) == 1 and isinstance(n.ops[0], (ast.In, ast.NotIn)) and isinstance(
                     n.comparators[0], (ast.Tuple, ast.List)):
@@ -181,6 +182,9 @@ class ReaderModel:
                     kp = self.keypath(n.left)
                     if kp:
                         self.accepts_nanstr.add(kp)
+                        missing = {"nan", "inf", "-inf"} - set(vals)
+                        if missing:
+                            self.partial_nanstr.setdefault(kp, (sorted(missing), n))
         self.env = {}
         self._propagate()
 
